@@ -165,6 +165,35 @@ def constructor_rules(ctx, prog):
         ctx.ob("C10.W2p", "redirect_init [stream=%s type=PARENT]: outcomes" % stream, "redirecting to the parent succeeds both ways: with the "
                "parent's own stream, and with the null device when the parent has none", kinds == {"parent stream", "null device"},
                {"successful_outcomes": sorted(kinds)}, nontrivial=True)
+    # W2n: every valid combination is honoured: with a valid redirect description, redirect_init fails only where a system call failed
+    states2 = []
+    for st in states:
+        s2 = st.copy()
+        for nm in STDFILE.values():
+            s2.mem[("g", nm)] = fs(("addr", ("d", ("g", nm))))      # the C library's three streams exist
+        states2.append(s2)
+    I2 = new_interp(prog, extra_models={"fileno": m_fileno_named, "open": m_open_rec})
+    I2.K, I2.Kset, I2.TOP_INT = I.K, I.Kset, I.TOP_INT
+    mark_failures(I2)
+    res2 = I2.run(F, states2)
+    ctx.stats("E-ABS", I2.stats)
+    seen = set()
+    nfail = 0
+    for st, rv in res2.exits:
+        if not any(atom_interval(a)[0] < 0 for a in rv if not isinstance(a, tuple)):
+            continue
+        stream, typ = st.mon["case"]
+        site = ret_site(F, st)[0]
+        key = (stream, typ, site, "libfail" in st.mon)
+        if key in seen:
+            continue
+        seen.add(key)
+        nfail += 1
+        ctx.ob("C10.W2n", "redirect_init [stream=%s type=%s]: %s" % (stream, typ, site), "for a valid redirect (one of the documented types, "
+               "with its handle, FILE or path) an error is returned only when a system call failed: no combination the documentation "
+               "allows is turned down by the library itself", "libfail" in st.mon, {"returns": show(rv)[:60], "failed_call": st.mon.get("libfail")},
+               nontrivial=True)
+    ctx.floor("C10.W2n", 6)
     # stream_to_file is exhaustive
     G = prog.fn("stream_to_file")
     rets = {}
